@@ -6,6 +6,7 @@ mod multi;
 mod jsonw;
 mod node;
 mod obs;
+mod shadow;
 mod sites;
 
 use check::{Case, Mode, Opt, Subj, Wk};
@@ -14,9 +15,9 @@ use obs::Hop;
 use vcore::proptest::prelude::*;
 use vcore::{pick, Level};
 
-const RULE: &str = "a case is (value of one static type, capture attribute, #[emit::optional] wrapping, read path of 0-3 hops, as_map flag): the value is fed to the ONE fixed `emit::props!` call site stamped out for that (type, attribute, optional) combination and the resulting property is read before and after every hop (erased props, erased event through dyn ErasedEmitter, to_owned, to_shared, ThreadLocalCtxt push/root + with_current, ambient props of an event emitted through a Runtime, frame carried to another thread, owned copy moved to another thread). Values: every integer type at extremes/powers of two/random, f32/f64 incl. NaN, +-inf, -0, subnormals, bool, char, borrowed/owned/static strings with control and non-ASCII characters, Display-only and dyn Display/Debug values, Option<i32>, a recursive structured grammar (null/unit/option/seq/tuple/string-key and non-string-key maps/structs/all four enum variant shapes, depth <= 5) with hand-written serde+sval impls, six derive-based types, error chains of depth 0-4 and the well-known keys lvl/err/trace_id/span_id/span_parent. Non-trivial = structured value of container depth >= 2, or a number at the extreme of its type (MIN/MAX, non-finite, -0, smallest positive), or a read path of >= 2 hops.";
+const RULE: &str = "a case is (value of one static type, capture attribute, #[emit::optional] wrapping, read path of 0-3 hops, as_map flag): the value is fed to the ONE fixed `emit::props!` call site stamped out for that (type, attribute, optional) combination and the resulting property is read before and after every hop (erased props, erased event through dyn ErasedEmitter, to_owned, to_shared, ThreadLocalCtxt push/root + with_current, ambient props of an event emitted through a Runtime, frame carried to another thread, owned copy moved to another thread). Values: every integer type at extremes/powers of two/random, f32/f64 incl. NaN, +-inf, -0, subnormals, bool, char, borrowed/owned/static strings with control and non-ASCII characters, Display-only and dyn Display/Debug values, Option<i32>, a recursive structured grammar (null/unit/option/seq/tuple/string-key and non-string-key maps/structs/all four enum variant shapes, depth <= 5) with hand-written serde+sval impls, six derive-based types, error chains of depth 0-4 and the well-known keys lvl/err/trace_id/span_id/span_parent. A further generator (shadowed-keys) captures a number/bool/string (every integer width, f32, f64, bool, &str, String; default, as_value, as_display, as_sval, as_serde) under a key that is ALSO present with a value of a different type (other integer widths, f64, bool, string, null, Level/TraceId/SpanId objects, Display-only) in one or two of the collections the event's props get joined with (and_props, `props:` base props of evt!/emit!, an `evt:` base event, ambient frames, the props of a span completed manually with emit!(evt: span), frames enclosing a span) and reads the key through every typed read path (pull::<T> for every FromValue type, get+cast, Value accessors; generic, by reference, &dyn ErasedProps, dedup(), as_map(), erased event, inside a generic Filter and Emitter): every such case counts as non-trivial. Non-trivial = structured value of container depth >= 2, or a number at the extreme of its type (MIN/MAX, non-finite, -0, smallest positive), or a read path of >= 2 hops.";
 
-const ASSUMPTIONS: [&str; 9] = [
+const ASSUMPTIONS: [&str; 10] = [
     "the oracle is the property text: default capture of numbers/bools/strings must pull back as the same typed value (f32, which has no FromValue, as its exact f64 widening), anything else must display as its Display text; as_display/as_debug must give exactly format!(\"{}\")/format!(\"{:?}\"); as_serde must give serde_json(captured)==serde_json(original) and as_sval sval_json(captured)==sval_json(original) as text; the other framework's JSON of the captured value must denote the same document (own strict JSON reader: order and duplicates kept, numbers by value) as the capturing framework's JSON of the original; as_error / `err:` must expose the same source-chain messages through to_borrowed_error() and cast::<&dyn Error>(); #[emit::optional] None must be absent from get() and for_each()",
     "documented conversions that are asserted beyond the same-type pull: Value::as_f64 (`as` conversion for numbers, parse for strings, NaN otherwise) and String/Cow<str>/emit::Str casts of strings after buffering (book: working-with-events); integer casts to OTHER integer types and to f64 are undocumented: a None is accepted, a Some(different number) is a failure",
     "don't-care (counted, never failed): `&str`/to_borrowed_str casts after a buffering hop (documented to fail); cross-framework comparison when the ORIGINAL's own serde_json and sval_json renderings are not the same JSON document (e.g. unit structs: null vs \"Name\"; map keys serde_json refuses) or either is an error; Display text of non-primitive (Display-only, char, Level/TraceId/SpanId objects) values and error chains after a buffering hop (the text only promises buffering for numbers, booleans, strings and structured values); `Option::None` under a well-known key (absent or null)",
@@ -25,6 +26,7 @@ const ASSUMPTIONS: [&str; 9] = [
     "known finding D17 (signature sval-capture/nested-seq/serde-read): raised only when the value was captured through sval, is read through serde, contains a NON-EMPTY sequence below its root, and serde_json's output is not the same JSON document; every other cross-framework mismatch has a different signature",
     "serde_json and sval_json themselves are trusted as serializers of the ORIGINAL value; value-bag / sval_serde / sval_buffer behaviour is part of what is observed, not trusted",
     "ThreadLocalCtxt state is per thread and per ctxt id; each worker thread owns one ctxt; frames are exited by guards, so a failing case cannot leak ambient state into the next",
+    "shadowed keys: where the key captured at the call site is also present further out (base props, base event, ambient frames, span props), what is observed for the key is the call-site value with its captured type on every typed read path: each typed read answers exactly what the same read of the stand-alone `emit::props! { v: x }` of the same site answers (after the ambient context: except the borrowed-string/borrowed-error reads, and for as_display/as_sval/as_serde captures the read paths are only compared with one another); the de-duplicated joined props must satisfy the same absolute clauses as an unshadowed property; how often the raw joined props ENUMERATE the key is not asserted (dedup is the reader's job)",
     "limits: call sites are emit::props! (the same capture hooks emit!/span! expand to); sinks (file/OTLP/term) are C13's domain; `Value::parse`, `to_f64_sequence` and Debug of Value are not asserted",
 ];
 
@@ -330,5 +332,27 @@ fn main() {
         s.require("siblings:all-optionals-some", 1000);
         s.enumerate("sibling-shapes", multi::all_shapes().into_iter(), multi::check);
         s.gen("sibling-properties", s.n(60_000, 1_800_000), || multi::mcase(hops(), enclosing()), multi::check);
+
+        // the SAME key captured at the call site and present, with a value of another type, wherever an
+        // event's props are joined with others; every typed read path must answer as the call-site value alone
+        s.require("site:shadowed-key", 4000);
+        for place in shadow::Place::ALL {
+            s.require(place.label(), 500);
+        }
+        for (site, shadowed) in [
+            ("int", "int"), ("int", "float"), ("int", "bool"), ("int", "str"),
+            ("float", "int"), ("float", "float"), ("float", "bool"), ("float", "str"),
+            ("bool", "int"), ("bool", "float"), ("bool", "str"),
+            ("str", "int"), ("str", "float"), ("str", "bool"),
+        ] {
+            s.require(&format!("shadow:pair/site-{site}/shadowed-{shadowed}"), 100);
+        }
+        s.require("shadow:call-site-value-does-not-cast-shadowed-one-does", 3000);
+        s.require("shadow:two-shadowing-layers", 1500);
+        s.require("shadow:read/inside-a-generic-filter", 1500);
+        for path in ["generic/pull", "generic/get-cast", "by-ref/pull", "erased/pull", "erased/get-cast", "dedup/pull", "dedup/get-cast", "dedup-erased/pull", "as-map/pull", "for_each/first", "dedup/for_each", "erased-event/pull", "erased-event/get-cast"] {
+            s.require(&format!("shadow:read/{path}"), 1500);
+        }
+        s.gen("shadowed-keys", s.n(40_000, 1_200_000), shadow::scase, shadow::check);
     })
 }
